@@ -22,6 +22,8 @@ def prop_src(oid, n, kind):
         return f"m{{|name, p, q| [\"x{oid}\", self.tag, name, p, q]}}"
     if kind == "val":
         return f"\"v{oid}_{n}\""
+    if kind == "raiser":       # a property that IS found; its body fails with a NoPropErr of its own (a name missing on some other object)
+        return "m{|p, q| {inner: 1}.nosuch_zq}"
     if kind == "meth":
         return f"m{{|p, q| [\"m{oid}_{n}\", self.tag, p, q]}}"
     return f"{{|x, p, q| [\"f{oid}_{n}\", x.tag, p, q]}}"
@@ -49,6 +51,8 @@ def expected(case, o, k, form, spell):
         return f"[{r['owner']}, nil]" if r["r"] == "prop" else "[nil, nil]"
     if r["r"] == "noprop":
         return f"[nil, <err NoPropErr: property `{cn}` is not defined.>]"
+    if r["r"] == "prop" and r["kind"] == "raiser":      # found, so it is what runs: its own failure is the outcome, `_missing` is not asked
+        return "[nil, <err NoPropErr: property `nosuch_zq` is not defined.>]"
     if r["r"] == "missing":
         v = f"[{q('x%d' % r['owner'])}, {tag}, {q(cn)}, {args[0]}, {args[1]}]"
     elif r["kind"] == "val":
